@@ -28,10 +28,18 @@ func registry(c *harness.Ctx) {
 	s := c.NewSim()
 	restlicodec.VerifResetCustomTyperefs()
 	regs := []func(){
-		func() { regT[int32, ctA](func(t ctA) (int32, error) { return int32(t) + 1, nil }, func(p int32) (ctA, error) { return ctA(p - 1), nil }) },
-		func() { regT[int32, ctB](func(t ctB) (int32, error) { return int32(t) + 2, nil }, func(p int32) (ctB, error) { return ctB(p - 2), nil }) },
-		func() { regT[string, ctC](func(t ctC) (string, error) { return "c" + string(t), nil }, func(p string) (ctC, error) { return ctC(p[1:]), nil }) },
-		func() { regT[int64, ctD](func(t ctD) (int64, error) { return int64(t) + 4, nil }, func(p int64) (ctD, error) { return ctD(p - 4), nil }) },
+		func() {
+			regT[int32, ctA](func(t ctA) (int32, error) { return int32(t) + 1, nil }, func(p int32) (ctA, error) { return ctA(p - 1), nil })
+		},
+		func() {
+			regT[int32, ctB](func(t ctB) (int32, error) { return int32(t) + 2, nil }, func(p int32) (ctB, error) { return ctB(p - 2), nil })
+		},
+		func() {
+			regT[string, ctC](func(t ctC) (string, error) { return "c" + string(t), nil }, func(p string) (ctC, error) { return ctC(p[1:]), nil })
+		},
+		func() {
+			regT[int64, ctD](func(t ctD) (int64, error) { return int64(t) + 4, nil }, func(p int64) (ctD, error) { return ctD(p - 4), nil })
+		},
 	}
 	uses := []func() string{
 		func() string {
